@@ -1,16 +1,22 @@
 """Second-wave contracts (builder w2d): the functions the C19/C12/C08 properties depend on *around* the already verified
 watch-stream / orchestrator / retry contracts:
 
-  O5  observation.revise_namespaces / is_deleted / get_blockers        (which namespaces are served after an event)
-  O6  observation.process_discovered_namespace_event / ..._resource_event  (revision committed under insights.revised + notify)
-  O7  observation.revise_resources / _disable_* (bounded: real Resource/Selector objects)
-  O7u observation._disable_unsuitable_resources / _disable_ambiguous_selectors / _disable_mismatched_selectors (deductive, bounded shape)
-  O8  observation.namespace_observer        O9  observation.resource_observer
-  O10 references.match_namespace / select_specific_namespaces (bounded vs. an independent reference) + O10c (deductive combination)
-  O11 references.Resource.get_url (bounded) / Backbone.fill / Backbone.wait_for
-  N5  api.get/post/patch/delete            N6  api.iter_jsonlines (bounded + loop contract) / api.stream
-  N7  credentials.Vault._items/extended/_expire/expire/is_empty/close/_flush_caches/_update_expiration
-  N8  auth.APIContext.add_response/flush_closed_responses/close_open_responses/close
+  O5   observation.revise_namespaces / is_deleted / get_blockers     (which namespaces are served after an event)
+  O6   observation.process_discovered_namespace_event / ..._resource_event  (revision committed under insights.revised + notify)
+  O7   observation.revise_resources / _disable_* / Selector.select    (BOUNDED: real Resource/Selector objects)
+  O7u  observation._disable_unsuitable_resources / _disable_ambiguous_selectors / _disable_mismatched_selectors (deductive)
+  O8   observation.namespace_observer          O9  observation.resource_observer
+  O10  references.match_namespace / select_specific_namespaces (BOUNDED vs. an independent reference); O10c: combination logic (deductive)
+  O11  references.Resource.get_url (BOUNDED, by parsing the URL);  O11b  Backbone.fill / Backbone.wait_for (deductive)
+  N5   api.get/post/patch/delete               N6  api.iter_jsonlines (BOUNDED)      N6s  api.stream (deductive, loop contract)
+  N7   credentials.Vault._items/extended/_expire/expire/is_empty/close/_flush_caches/_update_expiration
+  N8   auth.APIContext.add_response/flush_closed_responses/close_open_responses/close
+
+Findings of this file (native reproductions in /verif/findings, entries in /verif/known_findings.d/w2d.json):
+  F-C19-1 / F-C19-2  re-listed namespaces / CRDs (event type None, e.g. after a 410 Gone) are ignored   (O6)
+  F-C19-3            a DELETED namespace event with a pending termination condition keeps the namespace served   (O5)
+  F-C19-4            two ambiguous selectors with overlapping candidates: one candidate is served (order dependent)   (O7)
+  F-C19-5            a group-limited re-scan forgets the other group's disabled candidate: ambiguous selector served   (O7)
 """
 import asyncio
 import datetime
@@ -375,7 +381,7 @@ def _ids(rs):
          universe='real references.Resource objects: pods.v1 (core), pods.v1beta1.metrics.k8s.io (list/get only), things.v1.example.com, '
                   'things.v1.other.io (kind Item), items.v1.third.io (kind Item), readonlies.v1.example.com (list/watch, no patch), '
                   'things.v2.example.com (non-preferred); every subset of them as the cluster content at the initial full scan '
-                  '(128) x 9 handler configurations (real Selector objects in the five registry sections), each followed by a '
+                  '(128) x 10 handler configurations (real Selector objects in the five registry sections), each followed by a '
                   're-scan of group example.com with every possible new content of that group (8, fresh objects); exhaustive; the real revise_resources/_update_resources/_disable_*/'
                   'Selector.select run, the registry is a stand-in returning the selector sets')
 def O7(b):
@@ -1411,3 +1417,738 @@ def N6(b):
             chunks = [text[i:j2] for i, j2 in zip([0] + cuts, cuts + [n])]
             one(text, chunks, ('rnd', k, j))
     b.sampled('long texts: 300 seeded random texts x 20 random chunkings (short texts are exhaustive)')
+
+
+class _Stopper:
+    """asyncio.Future by contract, as far as api.stream uses it: done() reads shared state that other tasks may set at any
+    suspension point (never un-set); add/remove_done_callback keep a set of callbacks."""
+    def __init__(self, vc):
+        self.vc = vc
+        self.state = vc.bool('stopper.done@entry')
+        self.callbacks = []
+
+    def done(self):
+        return self.state
+
+    def havoc(self):
+        new = self.vc.bool('stopper.done')
+        self.vc.assume(Implies(self.state, new), 'a done future stays done')
+        self.state = new
+
+    def add_done_callback(self, cb):
+        self.vc.emit('stopper.add', cb)
+        self.callbacks.append(cb)
+
+    def remove_done_callback(self, cb):
+        self.vc.emit('stopper.remove', cb)
+        n = len(self.callbacks)
+        self.callbacks = [c for c in self.callbacks if c is not cb]
+        return n - len(self.callbacks)
+
+
+@harness('N6s', targets='kopf._cogs.clients.api.stream', props=['C19', 'C12'],
+         clauses=['one_get_request', 'one_object_per_line', 'response_closed_on_every_exit', 'stopper.before_response',
+                  'stopper.cancels_the_pending_request', 'stopper.closes_the_stream', 'stopper.ends_silently',
+                  'callbacks_removed', 'other_failures_propagate'],
+         canaries=['canary.never_raises', 'canary.always_yields', 'canary.never_stopped'],
+         trusted=['api.request by contract N2/N3', 'api.iter_jsonlines by contract N6 (complete lines, in order)',
+                  'aiohttp.ClientResponse (async with releases; close()); asyncio.Future (done, callbacks); asyncio.current_task',
+                  'json.loads / bytes.decode on the concrete line'])
+def N6s(vc):
+    """
+    api.stream (the transport of every watch, W1's trusted `api.stream`): exactly one GET through api.request (N2's retry
+    policy applies) with the caller's url/payload/headers/timeout/settings/logger; one parsed JSON object is yielded per
+    line of iter_jsonlines, in order (loop contract); the response is released/closed on EVERY exit (end of stream,
+    failure, stopper, consumer closing the generator).  The stopper future (the pause-waiter of W2): if it is done once the response
+    arrives, the response is closed and nothing is yielded; while the request is pending a callback cancels the
+    requesting task, and the resulting CancelledError ends the generator silently iff the stopper is done (any other
+    cancellation propagates); while streaming a callback closes the response, and the resulting ClientConnectionError
+    ends the generator silently iff the stopper is done (a genuine connection error propagates -- W1 turns it into a
+    reconnect); every registered callback is removed again; everything else propagates.
+    """
+    has_stopper = vc.nondet(2, 'stopper: None / a future') == 1
+    stopper = _Stopper(vc) if has_stopper else None
+    done_at_entry = stopper.state if has_stopper else False
+    a = dict(url=Opaque('url'), settings=Opaque('settings'), logger=Opaque('logger'))
+    if vc.nondet(2, 'optional arguments given?') == 1:
+        a.update(payload={}, headers={'Accept': 'application/json'}, timeout=Opaque('timeout'))
+    st = dict(resp=None, exc=None, where=None, done_at_failure=None, line=None, done_at_response=None)
+    task = Opaque('current-task')
+    task.cancel = lambda: vc.emit('task.cancel')
+    req_reps = [asyncio.CancelledError, errors.APIError, aiohttp.ClientConnectionError]
+    line_reps = [aiohttp.ClientConnectionError, aiohttp.ServerDisconnectedError, aiohttp.ClientPayloadError, asyncio.CancelledError]
+
+    def mk(cls):
+        return cls(None, status=500, headers={}) if issubclass(cls, errors.APIError) else cls('x')
+
+    async def request(*args, **kw):
+        vc.emit('request', args, kw, list(stopper.callbacks) if stopper else [])
+        await suspend('request')
+        k = vc.nondet(1 + len(req_reps), 'request: response / raises')
+        if k > 0:
+            st['exc'], st['where'] = mk(req_reps[k - 1]), 'request'
+            st['done_at_failure'] = stopper.state if stopper else False
+            raise st['exc']
+        st['resp'] = _Response(vc)
+        st['done_at_response'] = stopper.state if stopper else False
+        return st['resp']
+
+    def iter_jsonlines(content, *a_, **kw_):
+        vc.emit('iter_jsonlines', content, list(stopper.callbacks) if stopper else [])
+        return Opaque('lines')
+    LINES = [b'{"type": "ADDED", "object": {"metadata": {"name": "n1"}}}', b'{"type":"BOOKMARK","object":{}}', '{"k": "ä"}'.encode('utf-8')]
+
+    async def element(loc, iterable):
+        await suspend('iter_jsonlines.next')
+        k = vc.nondet(2 + len(line_reps), 'iter_jsonlines: line / end / raises')
+        if k == 0:
+            st['line'] = LINES[vc.nondet(len(LINES), 'which line')]
+            return st['line']
+        if k == 1:
+            return _STOP
+        st['exc'], st['where'] = mk(line_reps[k - 2]), 'lines'
+        st['done_at_failure'] = stopper.state if stopper else False
+        raise st['exc']
+
+    def at_backedge(loc):
+        import json
+        tr = vc.trace
+        i = max(j for j, ev in enumerate(tr) if ev and ev[0] == 'loop-head')
+        ys = [ev[1] for ev in tr[i + 1:] if ev[0] == 'yield']
+        vc.ensure('one_object_per_line', len(ys) == 1 and ys[0] == json.loads(st['line'].decode('utf-8')))
+        vc.canary('canary.always_yields', False)
+
+    async def consume(agen):
+        async for item in agen:
+            vc.emit('yield', item)
+            await suspend('consumer')
+
+    def on_suspend(site):
+        if stopper is not None:
+            stopper.havoc()
+    vc.used('api.request', 'N2+N3'); vc.used('api.iter_jsonlines', 'N6')
+    ld = vc.load('kopf._cogs.clients.api', 'stream', stubs={
+        'request': request, 'iter_jsonlines': iter_jsonlines, 'asyncio.current_task': lambda: task},
+        loops={1: LoopSpec('async for line in iter_jsonlines(', element=element, at_backedge=at_backedge)})
+    raised = None
+    try:
+        vc.drive(consume(ld.fn(stopper=stopper, **a)), on_suspend=on_suspend)
+    except BaseException as e:
+        if _ours(e):
+            raise
+        raised = e
+    tr, names = vc.trace, _names(vc)
+    reqs = [ev for ev in tr if ev[0] == 'request']
+    vc.ensure('one_get_request', len(reqs) == 1)
+    args, kw, cbs_during_request = reqs[0][1], reqs[0][2], reqs[0][3]
+    got = dict(zip(['method', 'url'], args), **kw)
+    vc.ensure('one_get_request', got.get('method') == 'get' and got.get('url') is a['url'] and got.get('settings') is a['settings']
+              and got.get('logger') is a['logger'] and got.get('payload') is a.get('payload')
+              and got.get('headers') is a.get('headers') and got.get('timeout') is a.get('timeout'))
+    vc.canary('canary.never_raises', raised is None)
+    # -- while the request is pending: a callback that cancels the requesting task (only needed while not yet done)
+    if stopper is not None:
+        for cb in cbs_during_request:
+            n0 = len(vc.trace)
+            cb(stopper)
+            vc.ensure('stopper.cancels_the_pending_request', [ev[0] for ev in vc.trace[n0:]] == ['task.cancel'])
+        vc.ensure('stopper.cancels_the_pending_request', len(cbs_during_request) <= 1)
+        vc.ensure('stopper.cancels_the_pending_request', Implies(Not(done_at_entry), len(cbs_during_request) == 1))
+        vc.ensure('callbacks_removed', stopper.callbacks == [])
+    else:
+        vc.ensure('callbacks_removed', 'task.cancel' not in names)
+    resp = st['resp']
+    yields = [ev for ev in tr if ev[0] == 'yield']
+    if resp is None:
+        exc = st['exc']
+        silent = isinstance(exc, asyncio.CancelledError) and stopper is not None
+        if silent:
+            vc.ensure('stopper.ends_silently', Iff(st['done_at_failure'], raised is None))
+            vc.ensure('other_failures_propagate', Implies(Not(st['done_at_failure']), raised is exc))
+        else:
+            vc.ensure('other_failures_propagate', raised is exc)
+        vc.ensure('one_object_per_line', not yields)
+        return ('request-failed', type(exc).__name__, type(raised).__name__)
+    # -- the response has arrived
+    closed = 'response.close' in names or 'response.aexit' in names
+    vc.ensure('response_closed_on_every_exit', closed)
+    vc.canary('canary.never_stopped', 'loop-head' in names or 'iter_jsonlines' in names)
+    its = [ev for ev in tr if ev[0] == 'iter_jsonlines']
+    if not its:
+        # it did not even start reading: only legal because the stopper was done when the response arrived
+        vc.ensure('stopper.before_response', stopper is not None and raised is None and not yields and 'response.close' in names)
+        vc.ensure('stopper.before_response', st['done_at_response'])
+        return ('stopped-before-streaming',)
+    vc.ensure('stopper.before_response', Not(st['done_at_response']))
+    vc.ensure('one_get_request', len(its) == 1 and its[0][1] is resp.content)
+    if stopper is not None:
+        cbs = its[0][2]
+        vc.ensure('stopper.closes_the_stream', len(cbs) == 1)
+        for cb in cbs:
+            n0 = len(vc.trace)
+            cb(stopper)
+            vc.ensure('stopper.closes_the_stream', [ev[0] for ev in vc.trace[n0:]] == ['response.close'] and vc.trace[-1][1] is resp)
+    vc.ensure('response_closed_on_every_exit', 'response.aexit' in names)
+    exc = st['exc']
+    if exc is None:
+        vc.ensure('other_failures_propagate', raised is None)
+        return ('ended',)
+    if isinstance(exc, aiohttp.ClientConnectionError) and stopper is not None:
+        vc.ensure('stopper.ends_silently', Iff(st['done_at_failure'], raised is None))
+        vc.ensure('other_failures_propagate', Implies(Not(st['done_at_failure']), raised is exc))
+    else:
+        vc.ensure('other_failures_propagate', raised is exc)
+    return ('stream-failed', type(exc).__name__, type(raised).__name__)
+
+
+# ================================================================================================ N7
+_NOW = datetime.datetime(2026, 1, 1, 12, 0, 0, tzinfo=datetime.timezone.utc)
+_UTC = datetime.timezone.utc
+_EXPIRATIONS = {                      # name -> (value, is it expired at _NOW?, the moment as an aware datetime)
+    'never': (None, False, None),
+    'past-aware': (_NOW - datetime.timedelta(hours=1), True, _NOW - datetime.timedelta(hours=1)),
+    'past-naive': ((_NOW - datetime.timedelta(minutes=5)).replace(tzinfo=None), True, _NOW - datetime.timedelta(minutes=5)),
+    'just-now': (_NOW, True, _NOW),
+    'future-aware-other-zone': ((_NOW + datetime.timedelta(minutes=1)).astimezone(datetime.timezone(datetime.timedelta(hours=5))),
+                                False, _NOW + datetime.timedelta(minutes=1)),
+    'future-naive': ((_NOW + datetime.timedelta(hours=2)).replace(tzinfo=None), False, _NOW + datetime.timedelta(hours=2)),
+}
+
+
+class _FrozenDatetime:
+    """datetime.datetime with now() frozen at _NOW (everything else of the datetime module stays real)"""
+    @staticmethod
+    def now(tz=None):
+        assert tz is _UTC
+        return _NOW
+
+
+class _VaultSelf:
+    """the fields of a credentials.Vault the methods under contract work on; callee methods are contract stubs"""
+    def __init__(self, vc, guard):
+        self.vc, self._guard = vc, guard
+        self._current, self._invalid, self._ready, self._next_expiration = {}, {}, True, None
+
+    async def _flush_caches(self, item):
+        self.vc.emit('flush_caches', item, item in self._current.values(), self._guard.held)
+        item.caches = None
+
+    def _update_expiration(self):
+        self.vc.emit('update_expiration', dict(self._current))
+        self._next_expiration = _spec_next_expiration(self._current)
+
+
+def _spec_next_expiration(current):
+    moments = [_EXPIRATIONS[i.info._tag][2] for i in current.values() if _EXPIRATIONS[i.info._tag][2] is not None]
+    return min(moments) if moments else None
+
+
+def _mk_item(tag, priority=0):
+    info = credentials.ConnectionInfo(server=f'https://{tag}', expiration=_EXPIRATIONS[tag][0], priority=priority)
+    object.__setattr__(info, '_tag', tag)
+    return credentials.VaultItem(info=info)
+
+
+class _Closable:
+    def __init__(self, vc, name, kind):
+        self.vc, self.name = vc, name
+        if kind == 'async':
+            async def close():
+                vc.emit('cache.close', name, 'awaited')
+                await suspend('cache.close')
+            self.close = close
+        elif kind == 'sync':
+            self.close = lambda: vc.emit('cache.close', name, 'called')
+
+
+@harness('N7', targets=['kopf._cogs.structs.credentials.Vault._update_expiration', 'kopf._cogs.structs.credentials.Vault.is_empty',
+                        'kopf._cogs.structs.credentials.Vault._expire', 'kopf._cogs.structs.credentials.Vault.expire',
+                        'kopf._cogs.structs.credentials.Vault._flush_caches', 'kopf._cogs.structs.credentials.Vault.close',
+                        'kopf._cogs.structs.credentials.Vault._items', 'kopf._cogs.structs.credentials.Vault.extended'],
+         props=['C12'],
+         clauses=['next_expiration_is_the_earliest', 'is_empty_iff_all_expired', 'expire.drops_exactly_the_expired',
+                  'expire.caches_flushed_before_removal', 'expire.not_remembered_as_invalid', 'expire.reauth_when_nothing_left',
+                  'expire.quick_path', 'flush.closes_every_cached_object', 'close.flushes_all_under_lock',
+                  'items.ready_and_expired_before_selecting', 'items.yields_the_selection_outside_the_lock',
+                  'items.stops_iff_still_current', 'extended.one_context_per_credential_and_purpose',
+                  'extended.yields_info_and_cached'],
+         canaries=['canary.never_expires', 'canary.never_blocks', 'canary.items_always_stop'],
+         trusted=['asyncio.Condition (lock; wait_for returns only when its predicate holds; others run meanwhile)',
+                  'Vault.select by contract N3(d): a current item of the top priority, LoginError if none',
+                  'datetime arithmetic/comparison of real datetime objects (now() frozen)',
+                  'inspect.iscoroutinefunction'])
+def N7(vc):
+    """
+    The rest of credentials.Vault (N3 covers invalidate/_update_converted/select/populate), scenario by scenario, on
+    vaults of <= 3 credentials (BOUNDED in size; expirations from {never, past aware, past naive(=UTC), exactly now,
+    future in another time zone, future naive}; `now` frozen):
+    _update_expiration: _next_expiration is the earliest expiration of the current credentials (naive = UTC), None if none
+    expires.  is_empty: true iff every current credential is expired (so an empty vault is empty) -- such a vault needs
+    authentication first.  _expire: exactly the credentials with expiration <= now are dropped, their cached contexts
+    flushed (closed) BEFORE they are dropped, the others stay; they are NOT remembered as invalid (may re-appear);
+    _next_expiration is recomputed; only if something expired and nothing is left, the vault turns not-ready, waiters
+    (the authenticator) are notified under the lock, and the call blocks until it is ready again ("trigger re-
+    authentication like invalidation").  expire: lock-free no-op unless the earliest expiration has passed.
+    _flush_caches: every cached object with a close() is closed (awaited if async), then the caches are dropped.
+    close: flushes every current credential, under the lock.  _items (LOOP CONTRACT on `while True`): each round waits
+    for readiness and expires under the lock, then takes select()'s choice, yields it OUTSIDE the lock, and stops iff the
+    yielded item is still the identical current item of its key afterwards (otherwise: it was invalidated -- next round).
+    extended: one cached object per credential and purpose (factory called once, under the lock; an existing one --
+    also one that a concurrent task cached while this one waited for the lock -- is re-used, never overwritten),
+    yields (key, info, cached).
+    """
+    sc = ['update_expiration', 'is_empty', '_expire', 'expire', 'flush', 'close', 'items', 'extended'][vc.nondet(8, 'scenario')]
+    return {'update_expiration': _n7_static, 'is_empty': _n7_static, '_expire': _n7_expire, 'expire': _n7_expire_quick,
+            'flush': _n7_flush, 'close': _n7_flush, 'items': _n7_items, 'extended': _n7_extended}[sc](vc, sc)
+
+
+def _n7_draw_current(vc, maxn=2):
+    tags = list(_EXPIRATIONS)
+    n = vc.nondet(maxn + 1, 'number of current credentials')
+    cur = {}
+    for i in range(n):
+        cur[f'k{i}'] = _mk_item(tags[vc.nondet(len(tags), f'expiration of credential {i}')])
+    return cur
+
+
+def _n7_static(vc, sc):
+    v = _VaultSelf(vc, _Cond(vc, 'guard'))
+    v._current = _n7_draw_current(vc, 2)
+    stubs = {'datetime.datetime': _FrozenDatetime}
+    if sc == 'update_expiration':
+        v._next_expiration = 'stale'
+        vc.load('kopf._cogs.structs.credentials', 'Vault._update_expiration').fn(v)
+        want = _spec_next_expiration(v._current)
+        got = v._next_expiration
+        vc.ensure('next_expiration_is_the_earliest', (got is None) if want is None else
+                  (isinstance(got, datetime.datetime) and got.tzinfo is not None and got == want))
+        vc.canary('canary.never_expires', got is None)
+        return (sc, str(got))
+    got = vc.load('kopf._cogs.structs.credentials', 'Vault.is_empty', stubs=stubs).fn(v)
+    want = all(_EXPIRATIONS[i.info._tag][1] for i in v._current.values())
+    vc.ensure('is_empty_iff_all_expired', got is want)
+    vc.canary('canary.never_expires', got is False)
+    return (sc, got)
+
+
+def _n7_expire(vc, sc):
+    refill = vc.nondet(2, 're-authentication: brings new credentials / none')
+    seen = {}
+
+    def others():
+        seen.update(ready=v._ready, current=dict(v._current))
+        if refill == 0:
+            v._current['new'] = _mk_item('never')
+        v._ready = True
+    guard = _Cond(vc, 'guard', others=others)
+    guard.held = True                       # precondition: _expire is called with the lock held (_items, expire)
+    v = _VaultSelf(vc, guard)
+    v._current = _n7_draw_current(vc, 2)
+    v._invalid = {'k0': [_mk_item('never')]}
+    inv_before = {k: list(x) for k, x in v._invalid.items()}
+    for it in v._current.values():
+        it.caches = {'contexts': Opaque('ctx')}
+    pre = dict(v._current)
+    v._next_expiration = _spec_next_expiration(pre)       # the class invariant kept by _update_expiration
+    ld = vc.load('kopf._cogs.structs.credentials', 'Vault._expire', stubs={'datetime.datetime': _FrozenDatetime})
+    blocked = []
+    vc.drive(ld.fn(v), on_suspend=lambda site: blocked.append(site) if site == 'guard.wait_for' else None)
+    expired = {k for k, it in pre.items() if _EXPIRATIONS[it.info._tag][1]}
+    after = seen['current'] if seen else v._current
+    vc.ensure('expire.drops_exactly_the_expired', set(after) == set(pre) - expired and all(after[k] is pre[k] for k in after))
+    flushes = [ev for ev in vc.trace if ev[0] == 'flush_caches']
+    vc.ensure('expire.caches_flushed_before_removal', sorted(id(ev[1]) for ev in flushes) == sorted(id(pre[k]) for k in expired)
+              and all(ev[2] is True and ev[3] is True for ev in flushes))
+    vc.ensure('expire.not_remembered_as_invalid', v._invalid == inv_before)
+    ups = [ev for ev in vc.trace if ev[0] == 'update_expiration']
+    vc.ensure('next_expiration_is_the_earliest', Implies(bool(expired), len(ups) >= 1 and ups[-1][1] == after)
+              and all(set(ev[1]) >= set(after) for ev in ups))
+    must_block = bool(expired) and not after
+    vc.ensure('expire.reauth_when_nothing_left', bool(blocked) == must_block)
+    notes = [ev for ev in vc.trace if ev[0] == 'guard.notify_all']
+    if must_block:
+        vc.ensure('expire.reauth_when_nothing_left', seen.get('ready') is False and len(notes) >= 1 and all(ev[1] for ev in notes)
+                  and v._ready is True and guard.held)
+    else:
+        vc.ensure('expire.reauth_when_nothing_left', v._ready is True and not notes and guard.held)
+    vc.canary('canary.never_expires', not expired)
+    vc.canary('canary.never_blocks', not blocked)
+    return (sc, sorted(expired), bool(blocked))
+
+
+def _n7_expire_quick(vc, sc):
+    guard = _Cond(vc, 'guard')
+    v = _VaultSelf(vc, guard)
+    v._current = _n7_draw_current(vc, 2)
+    v._next_expiration = _spec_next_expiration(v._current)
+
+    async def _expire():
+        vc.emit('_expire', guard.held)
+    v._expire = _expire
+    ld = vc.load('kopf._cogs.structs.credentials', 'Vault.expire', stubs={'datetime.datetime': _FrozenDatetime})
+    vc.drive(ld.fn(v))
+    due = v._next_expiration is not None and _NOW >= v._next_expiration
+    names = _names(vc)
+    if due:
+        vc.ensure('expire.quick_path', names == ['guard.acquire', '_expire', 'guard.release'] and vc.trace[1][1] is True)
+    else:
+        vc.ensure('expire.quick_path', names == [])
+    vc.canary('canary.never_expires', not due)
+    return (sc, due)
+
+
+def _n7_flush(vc, sc):
+    guard = _Cond(vc, 'guard')
+    v = _VaultSelf(vc, guard)
+    if sc == 'close':
+        v._current = {f'k{i}': _mk_item('never') for i in range(vc.nondet(3, 'number of current credentials'))}
+        ld = vc.load('kopf._cogs.structs.credentials', 'Vault.close')
+        vc.drive(ld.fn(v))
+        flushes = [ev for ev in vc.trace if ev[0] == 'flush_caches']
+        names = _names(vc)
+        vc.ensure('close.flushes_all_under_lock', sorted(id(ev[1]) for ev in flushes) == sorted(id(x) for x in v._current.values())
+                  and all(ev[3] is True for ev in flushes) and names[0] == 'guard.acquire' and names[-1] == 'guard.release'
+                  and not guard.held)
+        return (sc, len(flushes))
+    shape = vc.nondet(4, 'caches: None / {} / one object / three objects')
+    objs = []
+    if shape == 2:
+        objs = [_Closable(vc, 'ctx', ['async', 'sync', 'none'][vc.nondet(3, 'kind of close()')])]
+    elif shape == 3:
+        objs = [_Closable(vc, 'a', 'async'), _Closable(vc, 'b', 'none'), _Closable(vc, 'c', 'sync')]
+    item = _mk_item('never')
+    item.caches = None if shape == 0 else {f'p{i}': o for i, o in enumerate(objs)}
+    ld = vc.load('kopf._cogs.structs.credentials', 'Vault._flush_caches')
+    vc.drive(ld.fn(v, item))
+    closes = [(ev[1], ev[2]) for ev in vc.trace if ev[0] == 'cache.close']
+    want = [(o.name, 'awaited' if asyncio.iscoroutinefunction(o.close) else 'called') for o in objs if hasattr(o, 'close')]
+    vc.ensure('flush.closes_every_cached_object', sorted(closes) == sorted(want) and item.caches is None)
+    return (sc, shape, len(closes))
+
+
+def _n7_items(vc, sc):
+    st = dict(sel=None, consumer=None, rounds=0)
+
+    def others():
+        v._ready = True
+    guard = _Cond(vc, 'guard', others=others)
+    v = _VaultSelf(vc, guard)
+    v._ready = [True, False][vc.nondet(2, 'ready at the call?')]
+    v._current = {'k': _mk_item('never')}
+
+    async def _expire():
+        vc.emit('_expire', guard.held, v._ready)
+    v._expire = _expire
+    select_fails = vc.nondet(2, 'select: an item / LoginError') == 1
+
+    def select():
+        vc.emit('select', guard.held, v._ready)
+        if select_fails:
+            st['login'] = credentials.LoginError('Ran out of valid credentials.')
+            raise st['login']
+        key = 'k'
+        st['sel'] = (key, v._current.get(key) or _mk_item('never'))
+        v._current[key] = st['sel'][1]
+        return st['sel']
+    v.select = select
+
+    async def consume(agen):
+        async for key, item in agen:
+            vc.emit('yield', key, item, guard.held)
+            await suspend('consumer')
+            # what the consumer (auth.authenticated) may do with the credentials meanwhile
+            k = vc.nondet(3, 'consumer: succeeded / invalidated (removed) / invalidated and an equal copy re-added')
+            st['consumer'] = k
+            if k == 1:
+                del v._current[key]
+            elif k == 2:
+                v._current[key] = _mk_item('never')
+
+    def this_round():
+        tr = vc.trace
+        heads = [i for i, ev in enumerate(tr) if ev[0] == 'loop-head']
+        return tr[heads[-1] + 1:] if heads else tr
+
+    def check_round(ev):
+        names = [e[0] for e in ev]
+        order = [n for n in names if n in ('guard.acquire', 'guard.wait_for', '_expire', 'select', 'guard.release', 'yield')]
+        vc.ensure('items.ready_and_expired_before_selecting',
+                  order[:5] == ['guard.acquire', 'guard.wait_for', '_expire', 'select', 'guard.release']
+                  and all(e[1] is True and e[2] is True for e in ev if e[0] in ('_expire', 'select')))
+        ys = [e for e in ev if e[0] == 'yield']
+        vc.ensure('items.yields_the_selection_outside_the_lock', len(ys) == 1 and (ys[0][1], ys[0][2]) == st['sel'] and ys[0][3] is False
+                  and order.index('yield') == 5)
+
+    def at_backedge(loc):
+        check_round(this_round())
+        vc.ensure('items.stops_iff_still_current', st['consumer'] in (1, 2))
+        vc.canary('canary.items_always_stop', False)
+    vc.used('Vault.select', 'N3'); vc.used('Vault._expire', 'N7 (scenario _expire)')
+    ld = vc.load('kopf._cogs.structs.credentials', 'Vault._items',
+                 loops={1: LoopSpec('while True', at_backedge=at_backedge)})
+    raised = None
+    try:
+        vc.drive(consume(ld.fn(v)))
+    except credentials.LoginError as e:
+        raised = e
+    if select_fails:
+        vc.ensure('items.yields_the_selection_outside_the_lock', raised is st.get('login') and not any(e[0] == 'yield' for e in this_round())
+                  and not guard.held)
+        return (sc, 'login-error')
+    check_round(this_round())
+    vc.ensure('items.stops_iff_still_current', raised is None and st['consumer'] == 0 and not guard.held)
+    return (sc, 'stopped')
+
+
+def _n7_extended(vc, sc):
+    guard = _Cond(vc, 'guard')
+    v = _VaultSelf(vc, guard)
+    items = [('k0', _mk_item('never')), ('k1', _mk_item('future-naive'))]
+    existing = Opaque('existing-context')
+    shape = vc.nondet(4, 'caches of the first credential: None / {} / other purpose only / this purpose cached')
+    items[0][1].caches = [None, {}, {'other': Opaque('other-cache')}, {'contexts': existing, 'other': Opaque('other-cache')}][shape]
+    twice = vc.nondet(2, 'the same credential yielded twice (a retry)?') == 1
+    seq = [items[0], items[0]] if twice else items
+
+    cur = {}
+    concurrent = {}
+
+    def _items():
+        async def gen():
+            for key, item in seq:
+                cur['item'] = item
+                yield key, item
+        return gen()
+    v._items = _items
+    made = []
+
+    def factory(info):
+        vc.emit('factory', info, guard.held)
+        made.append(Opaque(f'context{len(made)}', info=info))
+        return made[-1]
+    explicit = vc.nondet(2, 'purpose: given / default') == 0
+    purpose = 'contexts' if explicit else repr(factory)
+
+    def on_suspend(site):
+        # while this task waits for the lock, a concurrent request of another task may run the same extended() for the
+        # same credential to its end: the caches and the cached object of this purpose are there then
+        item = cur.get('item')
+        if site == 'guard.acquire' and item is not None and id(item) not in concurrent \
+                and (item.caches is None or purpose not in item.caches):
+            if vc.nondet(2, 'a concurrent task caches its own object meanwhile?') == 1:
+                if item.caches is None:
+                    item.caches = {}
+                concurrent[id(item)] = item.caches[purpose] = Opaque('context-of-the-concurrent-task')
+    ld = vc.load('kopf._cogs.structs.credentials', 'Vault.extended')
+    got = []
+
+    async def consume():
+        agen = ld.fn(v, factory, 'contexts') if explicit else ld.fn(v, factory)
+        async for triple in agen:
+            got.append(triple)
+    vc.drive(consume(), on_suspend=on_suspend)
+    calls = [ev for ev in vc.trace if ev[0] == 'factory']
+    cached0 = existing if (shape == 3 and explicit) else None
+    distinct = []
+    for _, it in seq:
+        if not any(it is d for d in distinct):
+            distinct.append(it)
+    want_calls = [it for it in distinct if id(it) not in concurrent and not (it is items[0][1] and cached0 is not None)]
+    vc.ensure('extended.one_context_per_credential_and_purpose', [ev[1] for ev in calls] == [it.info for it in want_calls]
+              and all(ev[2] is True for ev in calls))
+    vc.ensure('extended.one_context_per_credential_and_purpose',
+              all(it.caches is not None and purpose in it.caches for _, it in seq)
+              and (shape < 2 or items[0][1].caches.get('other') is not None)
+              and all(it.caches[purpose] is concurrent[id(it)] for it in distinct if id(it) in concurrent))
+    vc.ensure('extended.yields_info_and_cached', len(got) == len(seq)
+              and all(g[0] == k and g[1] is it.info and g[2] is it.caches[purpose] for g, (k, it) in zip(got, seq))
+              and (cached0 is None or got[0][2] is existing) and not guard.held)
+    if twice:
+        vc.ensure('extended.one_context_per_credential_and_purpose', got[0][2] is got[1][2])
+    return (sc, shape, twice, explicit, len(calls))
+
+
+# ================================================================================================ N8
+@harness('N8', targets=['kopf._cogs.clients.auth.APIContext.add_response', 'kopf._cogs.clients.auth.APIContext.flush_closed_responses',
+                        'kopf._cogs.clients.auth.APIContext.close_open_responses', 'kopf._cogs.clients.auth.APIContext.close'],
+         props=['C12'],
+         clauses=['add.tracks_open_responses_only', 'add.forgets_closed_ones', 'close_open.closes_every_open_response',
+                  'close_open.forgets_all', 'close.responses_before_session', 'close.session_closed_once'],
+         canaries=['canary.always_tracked', 'canary.nothing_to_close'],
+         trusted=['aiohttp.ClientResponse.closed / close(); aiohttp.ClientSession.close() (awaited)'])
+def N8(vc):
+    """
+    auth.APIContext's bookkeeping of open responses (what Vault._flush_caches closes when credentials go away -- N7 --
+    so that streams still running on invalidated/expired credentials are cut and their watchers reconnect with fresh
+    ones): add_response tracks the response iff it is open, and drops the tracked ones that were closed meanwhile
+    (order of the others kept); close_open_responses closes every tracked response that is still open (and only
+    those), and forgets all; close() does that BEFORE closing the session, which is closed (awaited) exactly once.
+    Domain: 0-3 tracked responses, each open or closed (symbolic), the added one open or closed.
+    """
+    sc = ['add', 'close_open', 'close'][vc.nondet(3, 'scenario')]
+
+    class Resp:
+        def __init__(self, name):
+            self.name, self.closed = name, vc.bool(f'{name}.closed')
+            self.was_closed = self.closed
+
+        def close(self):
+            vc.emit('response.close', self)
+            self.closed = True
+
+    class Session:
+        async def close(self):
+            vc.emit('session.close', [r for r in tracked if Not(r.closed)])
+            await suspend('session.close')
+    n = vc.nondet(4, 'number of tracked responses')
+    tracked = [Resp(f'r{i}') for i in range(n)]
+    ctx = Opaque('api-context', responses=list(tracked), session=Session())
+    fns = {name: vc.load('kopf._cogs.clients.auth', f'APIContext.{name}').fn
+           for name in ('add_response', 'flush_closed_responses', 'close_open_responses', 'close')}
+    ctx.flush_closed_responses = lambda: fns['flush_closed_responses'](ctx)
+    ctx.close_open_responses = lambda: fns['close_open_responses'](ctx)
+    if sc == 'add':
+        new = Resp('new')
+        fns['add_response'](ctx, new)
+        still_open = [r for r in tracked if Not(r.was_closed)]         # forks: decided per path
+        want = still_open + ([new] if Not(new.was_closed) else [])
+        got = ctx.responses
+        vc.ensure('add.tracks_open_responses_only', (len(got) > 0 and got[-1] is new) == bool(Not(new.was_closed))
+                  and sum(1 for r in got if r is new) <= 1)
+        vc.ensure('add.forgets_closed_ones', len(got) == len(want) and all(a is b for a, b in zip(got, want)))
+        vc.ensure('add.tracks_open_responses_only', 'response.close' not in _names(vc))
+        vc.canary('canary.always_tracked', any(r is new for r in got))
+        return (sc, n, len(got))
+    if sc == 'close_open':
+        fns['close_open_responses'](ctx)
+    else:
+        vc.drive(fns['close'](ctx))
+    closes = [ev[1] for ev in vc.trace if ev[0] == 'response.close']
+    were_open = [r for r in tracked if Not(r.was_closed)]
+    vc.ensure('close_open.closes_every_open_response', len(closes) == len(were_open) and all(any(c is r for c in closes) for r in were_open)
+              and all(bool(r.closed) for r in tracked))
+    vc.ensure('close_open.forgets_all', ctx.responses == [])
+    vc.canary('canary.nothing_to_close', not closes)
+    if sc == 'close':
+        sess = [ev for ev in vc.trace if ev[0] == 'session.close']
+        vc.ensure('close.session_closed_once', len(sess) == 1)
+        vc.ensure('close.responses_before_session', len(sess) >= 1 and sess[0][1] == [] and _names(vc)[-1] == 'session.close')
+    return (sc, n, len(closes))
+
+
+# ================================================================================================ O7u
+class _SymVerbs:
+    """frozenset of verbs with symbolic membership of list/watch/patch"""
+    def __init__(self, vc, name):
+        self.has = {v: vc.bool(f'{name}.verbs.has({v})') for v in ('list', 'watch', 'patch')}
+
+    def __contains__(self, verb):
+        return bool(self.has[verb])          # forks
+
+
+class _SymSelector:
+    """a Selector by contract: select(rs) is a subset of rs decided by a pure predicate of the resource.
+    (The symbolic parts live outside the instance so that the selector still renders as a plain string in log messages.)"""
+    __slots__ = ('name', 'box')
+
+    def __init__(self, vc, name, resources, specific=None):
+        self.name = name
+        hit = {id(r): vc.bool(f'{name}.matches({r!r})') for r in resources}
+        spec = vc.bool(f'{name}.is_specific') if specific is None else specific
+        self.box = lambda: (hit, spec)
+
+    @property
+    def hit(self):
+        return self.box()[0]
+
+    @property
+    def is_specific(self):
+        return self.box()[1]
+
+    def select(self, rs):
+        return {r for r in rs if self.hit[id(r)]}          # forks
+
+    def __repr__(self):
+        return f'<{self.name}>'
+
+    def __format__(self, spec):
+        return repr(self)
+
+
+@harness('O7u', targets=['kopf._core.reactor.observation._disable_unsuitable_resources',
+                         'kopf._core.reactor.observation._disable_ambiguous_selectors',
+                         'kopf._core.reactor.observation._disable_mismatched_selectors'], props=['C19'],
+         clauses=['unwatchable_removed', 'unpatchable_removed_when_patching', 'suitable_kept', 'readonly_kept_without_patching',
+                  'ambiguous.none_of_2plus_served', 'ambiguous.unambiguous_kept', 'ambiguous.generic_never_disables',
+                  'mismatched.warns_iff_unresolved', 'mismatched.changes_nothing', 'never_adds', 'warns_when_disabling'],
+         canaries=['canary.nothing_removed', 'canary.never_warns'],
+         trusted=['Selector.select(rs): the subset of rs satisfying a pure predicate (O7.select_matches_reference); '
+                  'Resource.verbs: a set of strings', 'logger: records only'])
+def O7u(vc):
+    """
+    The three _disable_* helpers of observation.revise_resources, deductively, for ARBITRARY verbs and ARBITRARY
+    selector predicates over a set of <= 3 resources and <= 2 selectors (bounded shape, symbolic content):
+    _disable_unsuitable_resources: a resource without `list` or without `watch` is not served afterwards; one without
+    `patch` is not served if some state-keeping selector selects it; a resource with all three verbs always stays; if no
+    state-keeping selector selects any non-patchable (but watchable) resource, those stay (read-only handlers work);
+    _disable_ambiguous_selectors (one selector: with several, see F-C19-4): if it names a specific resource and
+    selects 2+, none of them is served afterwards; otherwise nothing changes; a generic selector never disables;
+    _disable_mismatched_selectors: warns iff some selector selects nothing, and changes nothing.
+    Nothing is ever added; whenever something is disabled a WARNING is logged; no exception.
+    """
+    sc = ['unsuitable', 'ambiguous', 'mismatched'][vc.nondet(3, 'scenario')]
+    n = 1 + vc.nondet(3, 'number of served resources') if sc != 'mismatched' else vc.nondet(3, 'number of served resources')
+    rs = [Opaque(f'res{i}') for i in range(n)]
+    for r in rs:
+        r.verbs = _SymVerbs(vc, repr(r))
+    log = _RecLogger(vc)
+    served = set(rs)
+    warned = lambda: any(ev[0] == 'log' and ev[1] == 'warning' for ev in vc.trace)
+    if sc == 'unsuitable':
+        sels = [_SymSelector(vc, f'patching-selector{i}', rs) for i in range(vc.nondet(3, 'number of state-keeping selectors'))]
+        ld = vc.load('kopf._core.reactor.observation', '_disable_unsuitable_resources', stubs={'logger': log})
+        ld.fn(resources=served, selectors=frozenset(sels))
+        has = lambda r, v: r.verbs.has[v]
+        watchable = {id(r): And(has(r, 'list'), has(r, 'watch')) for r in rs}
+        selected = {id(r): Or(*[s.hit[id(r)] for s in sels]) if sels else False for r in rs}
+        readonly = {id(r): And(watchable[id(r)], Not(has(r, 'patch'))) for r in rs}
+        patching_needed = Or(*[And(readonly[id(r)], selected[id(r)]) for r in rs])
+        for r in rs:
+            kept = r in served
+            vc.ensure('unwatchable_removed', Implies(Not(watchable[id(r)]), not kept))
+            vc.ensure('unpatchable_removed_when_patching', Implies(And(readonly[id(r)], selected[id(r)]), not kept))
+            vc.ensure('suitable_kept', Implies(And(watchable[id(r)], has(r, 'patch')), kept))
+            vc.ensure('readonly_kept_without_patching', Implies(And(readonly[id(r)], Not(patching_needed)), kept))
+        vc.ensure('never_adds', served <= set(rs))
+        vc.ensure('warns_when_disabling', Implies(served != set(rs), warned()))
+        vc.canary('canary.nothing_removed', served == set(rs))
+        vc.canary('canary.never_warns', not warned())
+        return (sc, n, len(served))
+    if sc == 'ambiguous':
+        sel = _SymSelector(vc, 'selector', rs)
+        ld = vc.load('kopf._core.reactor.observation', '_disable_ambiguous_selectors', stubs={'logger': log})
+        ld.fn(resources=served, selectors=[sel])
+        hits = [sel.hit[id(r)] for r in rs]
+        count = sum(If(h, 1, 0) for h in hits)
+        ambiguous = And(sel.is_specific, count >= 2)
+        for r in rs:
+            kept = r in served
+            vc.ensure('ambiguous.none_of_2plus_served', Implies(And(ambiguous, sel.hit[id(r)]), not kept))
+            vc.ensure('ambiguous.unambiguous_kept', Implies(Or(Not(ambiguous), Not(sel.hit[id(r)])), kept))
+            vc.ensure('ambiguous.generic_never_disables', Implies(Not(sel.is_specific), kept))
+        vc.ensure('never_adds', served <= set(rs))
+        vc.ensure('warns_when_disabling', Implies(served != set(rs), warned()))
+        vc.canary('canary.nothing_removed', served == set(rs))
+        vc.canary('canary.never_warns', not warned())
+        return (sc, n, len(served))
+    sels = [_SymSelector(vc, f'selector{i}', rs) for i in range(1 + vc.nondet(2, 'number of selectors'))]
+    ld = vc.load('kopf._core.reactor.observation', '_disable_mismatched_selectors', stubs={'logger': log})
+    ld.fn(resources=served, selectors=frozenset(sels))
+    unresolved = Or(*[And(*[Not(s.hit[id(r)]) for r in rs]) if rs else True for s in sels])
+    vc.ensure('mismatched.warns_iff_unresolved', Iff(unresolved, warned()))
+    vc.ensure('mismatched.changes_nothing', served == set(rs))
+    vc.ensure('never_adds', served <= set(rs))
+    vc.ensure('warns_when_disabling', True)
+    vc.canary('canary.nothing_removed', False)
+    vc.canary('canary.never_warns', not warned())
+    return (sc, n, len(sels))
